@@ -799,7 +799,12 @@ class ParsedException:
         """
         if not isinstance(tb_str, str):
             tb_str = tb_str.decode('utf-8')
-        tb_lines = tb_str.lstrip().splitlines()
+        # Only a newline ends a line of a traceback.  str.splitlines()
+        # also breaks at \r, \x0b, \x0c, \x1c-\x1e, \x85, \u2028 and
+        # \u2029, any of which may occur inside a message or source line.
+        tb_lines = re.split('\r?\n', tb_str.lstrip())
+        if tb_lines and not tb_lines[-1]:
+            tb_lines.pop()  # text ended with a newline
 
         # First off, handle some ignored exceptions. These can be the
         # result of exceptions raised by __del__ during garbage
